@@ -313,11 +313,13 @@ def shrink_case(opts, src, pred):
         return opts, src
 
 
-def run(prop, clauses, tier):
+def run(prop, clauses, tier, after_proofs=None):
     c = vlib.Check(prop, tier)
     rng = c.rng
     c.phase_translator(["srcpos"])
     c.phase_proofs()
+    if after_proofs:
+        after_proofs(c)
     if not c.phase_builds(("debug",)):
         c.finish(rule="build failed")
     known = {e["class"]: e for e in c.known}
